@@ -126,6 +126,66 @@ def gen_whole_bounds(tier, seed):
     return cases
 
 
+def gen_rangeapi(tier, seed):
+    """hand-built YangRange values whose bounds carry DIFFERENT fraction digits, through Less(i,j), IsSorted, Validate and
+    Sort: the order is that of the denoted rationals whatever the representation"""
+    from fractions import Fraction
+    rnd = random.Random(seed ^ 0x4A6)
+    nums = [(70, 1, 0), (125, 2, 0), (7, 0, 0), (1, 0, 0), (125, 2, 1), (5, 1, 1), (25, 2, 1), (0, 0, 0), (0, 3, 1), (15, 1, 0),
+            (150, 2, 0), (2, 0, 0), (19, 1, 0), (21, 1, 0), (P63 - 1, 1, 0), (P63 - 1, 18, 0), (9223372036854775807, 0, 1),
+            (1500000000000000001, 18, 0), (P64 - 1, 18, 0), (P64 - 1, 0, 0), (1, 18, 0), (1, 18, 1), (10, 0, 0), (99, 1, 0), (3, 0, 1)]
+
+    def val(n):
+        f = Fraction(n[0], 10 ** n[1])
+        return -f if n[2] else f
+
+    def tok(parts):
+        return ",".join("%d:%d:%d~%d:%d:%d" % (a + b) for a, b in parts) if parts else "-"
+
+    def ok(parts):      # no two differently written parts that denote the same pair of values (Sort is not stable)
+        seen = {}
+        for a, b in parts:
+            k = (val(a), val(b))
+            if seen.setdefault(k, (a, b)) != (a, b):
+                return False
+        return True
+    cases = ["rangeapi -"]
+    single = [(a, a) for a in nums]
+    spans = [(a, b) for a in nums[:16] for b in nums[:16] if val(a) < val(b)]
+    rnd.shuffle(spans)
+    pool2 = single + spans[:40] + [(nums[0], nums[3]), (nums[1], nums[4])]          # the last two: max < min
+    pool3 = single[:10] + spans[:8]
+    for k, pool in ((1, pool2), (2, pool2), (3, pool3)):
+        for parts in itertools.product(pool, repeat=k):
+            if ok(parts):
+                cases.append("rangeapi " + tok(parts))
+    for _ in range(3000 if tier == "quick" else 60000):
+        k = rnd.randint(2, 6)
+        parts = []
+        for _i in range(k):
+            a, b = rnd.choice(nums), rnd.choice(nums)
+            if val(a) > val(b) and rnd.random() < 0.9:
+                a, b = b, a
+            parts.append((a, b))
+        if rnd.random() < 0.5:
+            parts.sort(key=lambda p: (val(p[0]), val(p[1])))
+        if ok(parts):
+            cases.append("rangeapi " + tok(parts))
+    return cases
+
+
+def gen_stringpar(tier, seed):
+    """several goroutines printing different numbers at the same time: each gets what it would get alone"""
+    rnd = random.Random(seed ^ 0x57A)
+    pool = [(P63 - 1, 1, 0), (31415926535, 10, 0), (P64 - 1, 18, 1), (1, 18, 0), (0, 1, 1), (123456789012345678, 9, 0), (5, 0, 1), (P64 - 1, 0, 0),
+            (99999, 5, 0), (10 ** 18, 18, 1), (7, 3, 0), (42, 0, 0)]
+    cases = []
+    for _ in range(120 if tier == "quick" else 1500):
+        k = rnd.randint(4, 8)
+        cases.append("stringpar %d %s" % (rnd.choice([2000, 5000, 20000]), " ".join("%d:%d:%d" % rnd.choice(pool) for _i in range(k))))
+    return cases
+
+
 def gen(tier, seed):
     rnd = random.Random(seed)
     mags = magnitudes()
@@ -164,6 +224,8 @@ def gen(tier, seed):
             cases.append("parsedec %s %d" % (hexs(s), fd))
     cases += gen_seq(tier, seed)
     cases += gen_whole_bounds(tier, seed)
+    cases += gen_rangeapi(tier, seed)
+    cases += gen_stringpar(tier, seed)
     # the order in which a process meets the cases is random (fixed by the seed): nothing may be carried from one
     # call to the next
     rnd.shuffle(cases)
@@ -179,6 +241,10 @@ def nontrivial(c):
     if t[0] == "parsedecseq":
         return len(t) > 3
     if t[0] == "ranges":
+        return True
+    if t[0] == "rangeapi":
+        return "," in t[1]
+    if t[0] == "stringpar":
         return True
     return t[1] != "0"
 
@@ -202,7 +268,11 @@ def run(res, tier, seed, proof):
                     "and random histories over a pool where such pairs and repeated texts at other precisions occur; decimal64 range bounds written without a point through "
                     "parseChildRanges at every fraction-digits 1..18: whole numbers whose scaled value lies next to 2^63, next to "
                     "multiples of 2^64 (18/19/20, 184/185, 1844/1845, ..., k*2^64/10^fd), powers of ten, +-2^63, 2^64, alone and as "
-                    "lower/upper bound; all cases are fed "
+                    "lower/upper bound; hand-built YangRange values of 1-6 parts whose bounds carry different "
+                    "fraction digits (25 numbers incl. 7.0/1.25, -0.5/-0.25, -0, 2^63-1 at fd 0/1/18, 2^64-1) through Less(i,j) for all "
+                    "pairs, IsSorted, Validate, Sort and Validate of the sorted list (exhaustive for 1-2 parts over 67 parts, 3 parts over 18; "
+                    "random); 4-8 goroutines printing different numbers at the same time (String), each compared with the model; "
+                    "all cases are fed "
                     "to the processes in a seeded random order; non-trivial = operands differ / literal non-empty / magnitude non-zero "
                     "/ history of at least two calls",
                mismatches=mism, skipped_unmodelled=skipped, distribution=dict(commands=kinds, impl_outcomes=outs),
